@@ -515,8 +515,18 @@ class Inter:
                     here.add(pr)
                 elif e.target is not None:
                     sub = self.summary(e.target, _stack)
-                    here |= sub["must"]
-                    may |= sub["may"]
+                    sub_must, sub_may = sub["must"], sub["may"]
+                    if any(it == "?unknown-item" for (_k, it) in sub_may):
+                        # the callee reaches a storage primitive through a key parameter: resolve it at this call site
+                        try:
+                            res = [(w_["kind"], w_["item"], w_["must"]) for w_ in self.writes_of_event(e) if w_["item"] != "?unknown-item"]
+                        except Exception:
+                            res = []
+                        if res:
+                            sub_may = {x for x in sub_may if x[1] != "?unknown-item"} | {(k_, it_) for (k_, it_, _m) in res}
+                            sub_must = {x for x in sub_must if x[1] != "?unknown-item"} | {(k_, it_) for (k_, it_, m_) in res if m_}
+                    here |= sub_must
+                    may |= sub_may
                     here.add(("call", e.target.pretty))
                 else:
                     here.add(("lib", e.name))
@@ -571,6 +581,11 @@ class Inter:
             for k in ("key", "value"):
                 if out[k] is not None:
                     out[k] = sym.subst(out[k], mapping)
+            if out["item"] == "?unknown-item" and mapping and e.args:
+                # a generic storage helper: the key is a parameter, known once the call site is substituted
+                it = self.storage_item(sym.subst(e.args[0], mapping), e.fn.crate)
+                if it:
+                    out["item"] = it
             out["must"] = True
             out["chain"] = _stack
             return [out]
